@@ -312,6 +312,9 @@ func (c comparison) execute(_ *Ctx, params []Value) (Value, error) {
 
 func comparisonEquals(_ *Ctx, params []Value) (Value, error) {
 	if len(params) == 2 {
+		if isUncomparable(params[0]) && isUncomparable(params[1]) {
+			return nil, ParamTypeError(modeNames[equals], typeInt, params[1])
+		}
 		return params[0] == params[1], nil
 	}
 
@@ -320,6 +323,9 @@ func comparisonEquals(_ *Ctx, params []Value) (Value, error) {
 	}
 
 	v := params[0]
+	if isUncomparable(v) {
+		return nil, ParamTypeError(modeNames[equals], typeInt, v)
+	}
 	for _, p := range params {
 		if v != p {
 			return false, nil
@@ -333,7 +339,20 @@ func comparisonNotEquals(_ *Ctx, params []Value) (Value, error) {
 		return nil, errCnt2(notEquals, params)
 	}
 
+	if isUncomparable(params[0]) && isUncomparable(params[1]) {
+		return nil, ParamTypeError(modeNames[notEquals], typeInt, params[1])
+	}
 	return params[0] != params[1], nil
+}
+
+// isUncomparable reports whether v is a list or a set: comparing two such
+// values with == would panic at run time
+func isUncomparable(v Value) bool {
+	switch v.(type) {
+	case []int64, []string, map[string]struct{}, map[int64]struct{}:
+		return true
+	}
+	return false
 }
 
 func comparisonBetween(_ *Ctx, params []Value) (Value, error) {
